@@ -97,7 +97,7 @@ def run(ctx):
     ordered, nclasses = F.stratified(cases, key, 0, ctx.seed)
     if not thorough:
         ordered = ordered[:420]
-    verdicts, stats, ran = F.replay(ctx, ordered, threads, int(os.environ.get('VERIF_FETCH_BUDGET', 600 if thorough else 60)))
+    verdicts, stats, ran = F.replay(ctx, ordered, threads, int(os.environ.get('VERIF_FETCH_BUDGET', 450 if thorough else 60)))
     done = stats.get("evaluations", 0)
     if done < (60 if not thorough else 600):
         raise vlib.ToolError(f"only {done} scenarios replayed within the time budget")
@@ -105,7 +105,7 @@ def run(ctx):
     stats_all = dict(stats)
     if big is not None:
         o4, n4 = F.stratified(big.cases, key, 3000, ctx.seed)
-        v4, s4, ran4 = F.replay(ctx, o4, threads, 300, name="cases4.ndjson")
+        v4, s4, ran4 = F.replay(ctx, o4, threads, 200, name="cases4.ndjson")
         drift += sum(1 for r in v4 if F.judge(ctx, PROP, r, statement_checks) == "drift")
         done += s4.get("evaluations", 0)
         ran += ran4
@@ -125,7 +125,7 @@ def run(ctx):
     # implementation -> spec: random scenarios with 4 namespaces, up to 3 delegates, validated by TLC
     n = 600 if thorough else 60
     recorded, accepted, rdrift = F.record_and_validate(ctx, PROP, n, 4, threads, statement_checks,
-                                                         budget_secs=300 if thorough else 60, at_least=200 if thorough else 30)
+                                                         budget_secs=200 if thorough else 60, at_least=200 if thorough else 30)
     ctx.cov["traces_validated_against_impl"] += accepted
     ctx.cov["evaluations"] += len(recorded)
     ctx.cov["recorded_runs"] = len(recorded)
